@@ -39,7 +39,7 @@ TECHNIQUE = ("Lean 4 machine-checked proof over generated fit functions + differ
 
 
 def gen_cases(ctx, n):
-    cases = []
+    cases = G.corpus(ID)
     for d in range(1, 6):
         cases.append(G.gen_case(ctx.rng, family="polynomial", degree=d, want_range=False))
     for fam in ("linear", "quadratic", "exponential", "gaussian", "custom:sine", "custom:growth",
